@@ -86,7 +86,7 @@ def observe(doc) -> dict:
     for h in root.iter(TX + "h"):
         if any(a.tag == TX + "table-of-content" for a in h.iterancestors()):
             continue
-        heads.append({"level": int(h.get(TX + "outline-level", "1")), "text": odftext.collapse(h)})
+        heads.append({"level": int(h.get(TX + "outline-level", "1")), "text": odftext.collapse(h), "plain": odftext.plain(h)})
     entries = []
     title = None
     for ib in root.iter(TX + "index-body"):
@@ -210,6 +210,28 @@ def main(tier: str) -> int:
                 lines0 = ["exc: " + repr(ex)]
             if [ln.split(" ", 1)[0] for ln in lines0] != [w["text"].split(" ", 1)[0] for w in want]:
                 run.violation("headers-tool|outline-differs", {"kind": "script", **ctx, "script": lines0})
+            # the complete output: one line "<number> <text of the heading>" per listed heading (white-space elements expanded),
+            # on the live document and on the document saved indented (pretty) and opened again
+            eff = 10 if outline == 0 else outline
+            listed = [h for h in observe(doc)["heads"] if h["level"] <= eff]
+            wnums = [w["text"].split(" ", 1)[0] for w in want]
+            if len(listed) == len(wnums):
+                expected_out = "".join(f"{n} {h['plain']}\n" for n, h in zip(wnums, listed))
+                from odfdo import Document as _Document
+
+                pbuf = io.BytesIO()
+                doc.save(pbuf, pretty=True)
+                pbuf.seek(0)
+                for how, d2 in (("live", doc), ("reopened-pretty", _Document(pbuf))):
+                    out = io.StringIO()
+                    try:
+                        with contextlib.redirect_stdout(out):
+                            headers_document(d2, 999 if outline == 0 else outline)
+                        got_out = out.getvalue()
+                    except Exception as ex:  # noqa: BLE001
+                        got_out = "exc: " + repr(ex)
+                    if got_out != expected_out:
+                        run.violation(f"headers-tool|output-differs|{how}", {"kind": "script-output", **ctx, "want_out": expected_out, "got_out": got_out})
         # ... and the command itself on a sample
         if script_budget > 0 and levels:
             script_budget -= 1
